@@ -180,3 +180,4 @@ def check(ck):
     # ---- C20.7 the caller's Config reaches every layer -----------------------------------------------------------------
     common.check_config_forwarding(ck, "C20.7")
     ck.floor("C20.7", 6)
+    common.check_config_defaults(ck, "C20.7", ("serialize_method", "ignore_attribute", "serialize_handlers"))
